@@ -351,7 +351,7 @@ func verifLedger(u *verifU, c types.CoinID) *big.Int {
 	}
 	if c.IsBaseCoin() {
 		for _, other := range u.coins {
-			if !other.IsBaseCoin() {
+			if !other.IsBaseCoin() && u.st.Coins.GetCoin(other) != nil {
 				sum.Add(sum, u.st.Coins.GetCoin(other).Reserve())
 			}
 		}
